@@ -33,7 +33,7 @@ NPMODE = {'constant': 'constant', 'periodic': 'wrap', 'symmetric': 'reflect', 'o
 DRIFT_CLAUSES = {'not-raised', 'inner-product'}
 # layer-C model flag: '0' mirrors _resize_discr of the current tree (open finding: explicit offset on a shrinking axis),
 # '1' the repaired form of proposals/C16/shrink-offset-range-placement/fix.diff
-FIXED_RANGE = '0'
+FIXED_RANGE = '1'
 LOS = [Fraction(0), Fraction(-1), Fraction(1, 2), Fraction(3)]
 HS = [Fraction(1), Fraction(1, 2), Fraction(2), Fraction(1, 4)]
 
